@@ -8,7 +8,7 @@ RULE = ("real Pose.read calls in real threads under a deterministic line-level s
         "cache initially {empty, A, B}; all single-preemption schedules, double-preemption schedules exhaustively (thorough) or sampled (quick); per thread: result vs its single-threaded result "
         "(oracle), and header/hit-miss vs the Lean protocol model run on the observed order of cache sections; non-trivial = distinct (files, sources, cache, schedule)")
 ASSUMPTIONS = ["CPython's GIL makes one attribute load/store and one lock acquire/release atomic; preemption inside a source line or inside C extensions is not explored",
-               "threads are preempted only in pose_header.py / pose.py / reader.py lines (steps on thread-local state commute)"]
+               "preemption points are source lines of pose_format modules; of a line executed many times in a loop only the first occurrences are preemption candidates"]
 
 
 def cache_modules():
@@ -30,9 +30,14 @@ def run(ctx):
     import pose_format.utils.reader as RD
     rng = ctx.rng
     mods = cache_modules()
-    files_traced = {m.__file__ for m in mods}
+    # yield points: every source line of every pose_format module a read executes (shared state may live anywhere in the package);
+    # the modules that mention the cache class are reported in the evidence
+    import pose_format
+    root = os.path.dirname(pose_format.__file__)
+    files_traced = {os.path.join(dp, f) for dp, _, fs in os.walk(root) for f in fs if f.endswith(".py")}
+    ctx.extra["modules_referencing_cache"] = sorted(os.path.basename(m.__file__) for m in mods)
     nlocks = S.instrument_locks(mods + [RD])
-    ctx.extra["modules_with_yield_points"] = sorted(os.path.basename(f) for f in files_traced)
+    ctx.extra["modules_with_yield_points"] = "every .py file under pose_format/ (%d files)" % len(files_traced)
     ctx.extra["locks_instrumented"] = nlocks
     # log of cache sections in the order they happen (for the model): wrap the two cache entry points
     log = []
@@ -105,17 +110,26 @@ def explore(ctx, rng, files_traced, log):
                 meta.append((info, res, [(t, k, h) for t, k, h in log if t is not None]))
                 return trace
             # how many steps does each thread take alone?
-            tr = one([(0, None)])
-            n0 = sum(1 for t, _ in tr if t == 0)
-            tr = one([(1, None)])
-            n1 = sum(1 for t, _ in tr if t == 1)
-            for first, nf in ((0, n0), (1, n1)):
-                for k in range(1, nf):
+            # preemption candidates: step k of a thread's solo run is a candidate when its source line occurred at most `reps` times before
+            # (loops over points / frames repeat the same lines; the first occurrences are the distinct situations)
+            reps = ctx.pick(2, 6)
+            def candidates(tid):
+                tr = one([(tid, None)])
+                locs = [w for t, w in tr if t == tid]
+                seen, ks = {}, []
+                for k, w in enumerate(locs):
+                    seen[w] = seen.get(w, 0) + 1
+                    if k >= 1 and seen[w] <= reps:
+                        ks.append(k)
+                return len(locs), ks
+            n0, k0 = candidates(0)
+            n1, k1 = candidates(1)
+            for first, ks in ((0, k0), (1, k1)):
+                for k in ks:
                     one([(first, k), (1 - first, None)])                         # one preemption
             # two preemptions
-            pairs = [(first, k, m) for first, nf, no in ((0, n0, n1), (1, n1, n0)) for k in range(1, nf) for m in range(1, no)]
-            if not ctx.thorough():
-                pairs = rng.sample(pairs, min(len(pairs), 60))
+            pairs = [(first, k, m) for first, ks, ms in ((0, k0, k1), (1, k1, k0)) for k in ks for m in ms]
+            pairs = rng.sample(pairs, min(len(pairs), ctx.pick(60, 1500)))
             for first, k, m in pairs:
                 one([(first, k), (1 - first, m), (first, None)])
         ctx.sample({"threads": [{"file": n, "source": k, "file_bytes": len(pool[n])} for n, k in combo], "steps_alone": [n0, n1]})
